@@ -161,9 +161,11 @@ def lexAux : Nat → List Char → List Tok → List Tok
         | some (t, r') => lexAux fuel r' (.temporal (String.ofList ('@' :: t)) :: acc)
         | none => lexAux fuel r (.bad "@" :: acc)
       else if c == '$' then
-        let w := r.takeWhile isIdChar
-        let ws := String.ofList w
-        if ws == "this" || ws == "index" || ws == "total" then lexAux fuel (r.drop w.length) (.kw ("$" ++ ws) :: acc)
+        -- '$this' | '$index' | '$total' are literal tokens: they end after their last letter
+        -- whatever follows (`$thiscontains` is `$this` `contains`)
+        if "this".toList.isPrefixOf r then lexAux fuel (r.drop 4) (.kw "$this" :: acc)
+        else if "index".toList.isPrefixOf r then lexAux fuel (r.drop 5) (.kw "$index" :: acc)
+        else if "total".toList.isPrefixOf r then lexAux fuel (r.drop 5) (.kw "$total" :: acc)
         else lexAux fuel r (.bad "$" :: acc)
       else if isDigitC c then
         let ds := s.takeWhile isDigitC
@@ -222,6 +224,10 @@ def unitKeywords : List String :=
 abbrev Parser := List Tok → Option (Ex × List Tok)
 
 /-- qualifiedIdentifier: identifier ('.' identifier)*; k bounds the number of components -/
+def startsParen : List Tok → Bool
+  | .kw "(" :: _ => true
+  | _ => false
+
 def qualified : Nat → List Tok → Option (List String × List Tok)
   | 0, _ => none
   | k + 1, ts =>
@@ -232,7 +238,9 @@ def qualified : Nat → List Tok → Option (List String × List Tok)
       | some n =>
         match r with
         | .kw "." :: t2 :: r2 =>
-          if (isIdentTok t2).isSome then
+          -- `. identifier (` is a function invocation on the typed expression, not a further
+          -- component of the type name (ANTLR's lookahead leaves the loop there)
+          if (isIdentTok t2).isSome && !startsParen r2 then
             match qualified k (t2 :: r2) with
             | some (q, r3) => some (n :: q, r3)
             | none => none
@@ -270,19 +278,51 @@ def levelG (step : Step) (next : Parser) : Parser := fun ts =>
 def binRhs (o : String) (next : Parser) : List Tok → Option ((Ex → Ex) × List Tok) := fun r =>
   (next r).map fun p => (fun left => .bin o left p.1, p.2)
 
-def typRhs (o : String) : List Tok → Option ((Ex → Ex) × List Tok) := fun r =>
-  (qualified r.length r).map fun p => (fun left => .typ o left p.1, p.2)
+/-- a builder parser: what the tokens make of any left operand, and the tokens left over -/
+abbrev Cont := List Tok → Option ((Ex → Ex) × List Tok)
+
+/-- the `(op rhs)*` loop as a builder on the left operand (same iterations as `loopG`) -/
+def loopB (step : Step) : Nat → Cont
+  | 0, ts =>
+    (match ts with
+    | .kw o :: _ => if (step o).isSome then none else some (id, ts)
+    | _ => some (id, ts))
+  | k + 1, ts =>
+    match ts with
+    | .kw o :: r =>
+      (match step o with
+      | some rhs =>
+        (match rhs r with
+        | some (build, r') => (loopB step k r').map fun p => (p.1 ∘ build, p.2)
+        | none => none)
+      | none => some (id, ts))
+    | _ => some (id, ts)
+
+/-- a type operator is a *suffix*: after `left is T` ANTLR's precedence loop goes on with any
+    operator at least as tight as the level the rule was entered with — in particular with the
+    operators tighter than `is`, which take `left is T` as their left operand
+    (`x is T * y` is `(x is T) * y`).  `cont` is that continuation: the loops of all tighter levels -/
+def typRhs (o : String) (cont : Cont) : List Tok → Option ((Ex → Ex) × List Tok) := fun r =>
+  match qualified r.length r with
+  | none => none
+  | some (q, r1) => (cont r1).map fun p => (fun left => p.1 (.typ o left q), p.2)
 
 /-- binary level: the right-hand side is an operand of the next tighter level -/
 def stepBin (ops : List String) (next : Parser) : Step := fun o =>
   if ops.contains o then some (binRhs o next) else none
 
-/-- type level: the right-hand side is a qualified identifier -/
-def stepTyp (ops : List String) : Step := fun o =>
-  if ops.contains o then some (typRhs o) else none
+/-- type level: the right-hand side is a qualified identifier, then the tighter loops -/
+def stepTyp (ops : List String) (cont : Cont) : Step := fun o =>
+  if ops.contains o then some (typRhs o cont) else none
 
 def levelBin (ops : List String) (next : Parser) : Parser := levelG (stepBin ops next) next
-def levelTyp (ops : List String) (next : Parser) : Parser := levelG (stepTyp ops) next
+def levelTyp (ops : List String) (next : Parser) (cont : Cont) : Parser := levelG (stepTyp ops cont) next
+
+/-- the loops of a level after those of the tighter levels, as one builder -/
+def contThen (inner : Cont) (step : Step) : Cont := fun ts =>
+  match inner ts with
+  | none => none
+  | some (b1, r1) => (loopB step r1.length r1).map fun p => (p.1 ∘ b1, p.2)
 
 /-- polarity: ('+' | '-')* operand; k bounds the number of signs -/
 def unary (post : Parser) : Nat → Parser
@@ -364,10 +404,23 @@ def postfixP (e : Parser) : Parser := levelG (stepPostfix e) (termP e)
 
 def unaryP (e : Parser) : Parser := fun ts => unary (postfixP e) ts.length ts
 
+/-- a level: the parser `operand (op rhs)*`, and the loops of this and all tighter levels as a
+    builder (what may follow a suffix operator of a looser level) -/
+structure Lv where
+  parser : Parser
+  cont : Cont
+
+def levelStep (lvl : List String × Bool) (inner : Lv) : Step :=
+  if lvl.2 then stepTyp lvl.1 inner.cont else stepBin lvl.1 inner.parser
+
 /-- the levels above a nested-expression parser: binary levels (loosest outermost) around polarity
     around postfix around term -/
-def levelsP (lvls : List (List String × Bool)) (e : Parser) : Parser :=
-  lvls.foldr (fun lvl next => if lvl.2 then levelTyp lvl.1 next else levelBin lvl.1 next) (unaryP e)
+def levelsL (lvls : List (List String × Bool)) (e : Parser) : Lv :=
+  lvls.foldr (fun lvl inner =>
+      { parser := levelG (levelStep lvl inner) inner.parser, cont := contThen inner.cont (levelStep lvl inner) })
+    { parser := unaryP e, cont := fun ts => loopB (stepPostfix e) ts.length ts }
+
+def levelsP (lvls : List (List String × Bool)) (e : Parser) : Parser := (levelsL lvls e).parser
 
 /-- the `expression` rule; the fuel bounds the nesting of parentheses, indexers and arguments -/
 def exprP : Nat → Parser
